@@ -31,9 +31,80 @@ def name_to_var(ex, name):
     raise Undecided('variable name shape %r' % lits)
 
 
+VALS = z3.ArraySort(Var, I)
+FEAS0 = z3.Function('FEAS0', VALS, B)          # the constraints present before the code under verification ran (as a predicate on valuations)
+VAL0 = z3.Array('VAL0', Var, I)                 # values reported by the last solve
+STATUS = {'Optimal': 1, 'Not Solved': 0, 'Infeasible': -1, 'Unbounded': -2, 'Undefined': -3}
+_fn = [0]
+
+
 def feas_get(p):
-    if 'feas' not in p.ghost: p.ghost['feas'] = z3.Bool('FEAS0')
+    if 'feas' not in p.ghost: p.ghost['feas'] = FEAS0(NU)
     return p.ghost['feas']
+
+
+def fresh_feas(tag):
+    _fn[0] += 1
+    return z3.Function('FEAS%s!%d' % (tag, _fn[0]), VALS, B)(NU)
+
+
+def g(p, name, default):
+    if name not in p.ghost: p.ghost[name] = default
+    return p.ghost[name]
+
+
+def val_get(p): return g(p, 'val', VAL0)
+def status_get(p): return g(p, 'status', z3.Int('STATUS0'))
+def solves_get(p): return g(p, 'solves', z3.Int('SOLVES0'))
+def hist_get(p): return g(p, 'hist', z3.Array('HIST0', I, I))
+
+
+def lp_solve(ex, p, args, kwargs, e):
+    """prob.solve(solver): the outcome is arbitrary (status code, reported values); it is appended to the ghost history.
+    T3 (used by callers through solved_ok()): a status Optimal outcome satisfies every constraint present."""
+    n = solves_get(p); st = fresh('status', I); val = fresh('VAL', VALS)
+    p.assume(z3.Or(*[st == c for c in STATUS.values()]))
+    p.ghost['hist'] = z3.Store(hist_get(p), n, st); p.ghost['solves'] = n + 1
+    p.ghost['status'] = st; p.ghost['val'] = val
+    p.ghost['feas_at_solve'] = feas_get(p)
+    return VInt(st)
+
+
+def lp_solve_mods(ex, n, p): return {('ghost', 'status'), ('ghost', 'val'), ('ghost', 'hist'), ('ghost', 'solves'), ('ghost', 'feas_at_solve')}
+
+
+lp_solve.mods = lp_solve_mods
+
+
+def lp_writelp(ex, p, args, kwargs, e): return VNone()
+
+
+def lp_var_value(ex, v, p, line):
+    return VInt(z3.Select(val_get(p), v.t))
+
+
+def spec_solved(ex, e, p):
+    v = ex.ev(e.args[0], p)
+    return VInt(z3.Select(val_get(p), v.t))
+
+
+def spec_status(ex, e, p): return VInt(status_get(p))
+def spec_solves(ex, e, p): return VInt(solves_get(p))
+
+
+def spec_hist(ex, e, p):
+    i = ex.ev(e.args[0], p)
+    return VInt(z3.Select(hist_get(p), i.t))
+
+
+def spec_solution_ok(ex, e, p):
+    """solution_ok(): the values reported by the last solve satisfy the constraints present at that solve (T3 for status Optimal)."""
+    f = p.ghost.get('feas_at_solve', feas_get(p))
+    return VBool(z3.substitute(f, (NU, val_get(p))))
+
+
+def spec_feas_of_solution(ex, e, p):
+    return VBool(z3.substitute(feas_get(p), (NU, val_get(p))))
 
 
 def lp_variable(ex, p, args, kwargs, e):
@@ -56,7 +127,7 @@ def lp_variable(ex, p, args, kwargs, e):
     # FRESH (T3 precondition): a literal name must not have been used for another variable of this problem
     if z3.is_app(v) and v.decl().name() == 'named':
         key = 'used:' + ''.join(name.atoms)
-        used = p.ghost.get(key, z3.BoolVal(False))
+        used = p.ghost.get(key, z3.Bool('USED0_' + ''.join(name.atoms)))
         ex.vc('no-raise/fresh-variable-name-%s@%d' % (''.join(name.atoms), e.lineno), p, z3.Not(used), line=e.lineno)
         p.ghost[key] = z3.BoolVal(True)
     p.ghost['feas'] = z3.And(feas_get(p), *dom) if dom else feas_get(p)
@@ -140,7 +211,15 @@ def spec_nu(ex, e, p):
 def spec_feas(ex, e, p): return VBool(feas_get(p))
 
 
-def spec_used(ex, e, p): return VBool(p.ghost.get('used:' + e.args[0].value, z3.BoolVal(False)))
+def spec_used(ex, e, p): return VBool(p.ghost.get('used:' + e.args[0].value, z3.Bool('USED0_' + e.args[0].value)))
+
+
+def spec_indexedvar(ex, e, p):
+    return VLpVar(Var.indexed(family(e.args[0].value), ex.ev(e.args[1], p).t))
+
+
+def spec_namedvar(ex, e, p):
+    return VLpVar(Var.named(NAMES.setdefault(e.args[0].value, len(NAMES))))
 
 
 def spec_pairvar(ex, e, p):
@@ -148,7 +227,41 @@ def spec_pairvar(ex, e, p):
     return VLpVar(Var.pairv(s.t, q.t))
 
 
+# ---- itertools.chain.from_iterable(rows) (T11): the concatenation of the rows, kept abstract:
+#      FLEN(rows) elements FARR(rows)[q], each of which is some rows[i][c]; the sum over the concatenation is the
+#      sum of the row sums (lemma FLAT/sum, an assumed consequence of "concatenates").
+LLR = list_sort(('list', 'ref'))
+FLEN = z3.Function('FLEN', LLR, I); FARR = z3.Function('FARR', LLR, z3.ArraySort(I, I))
+
+
+def flat_list(ex, rows, p):
+    t = rows.term(); L = list_sort('ref')
+    q = fresh('fq', I); i = fresh('fi', I); c = fresh('fc', I)
+    p.assume(FLEN(t) >= 0)
+    p.assume(z3.ForAll([q], z3.Implies(z3.And(0 <= q, q < FLEN(t)),
+             z3.Exists([i, c], z3.And(0 <= i, i < rows.len, 0 <= c, c < L.len(z3.Select(rows.arr, i)),
+                                      z3.Select(FARR(t), q) == z3.Select(L.arr(z3.Select(rows.arr, i)), c))))))
+    return VList(FLEN(t), FARR(t), 'ref')
+
+
+def chain_from_iterable(ex, p, args, kwargs, e):
+    rows = args[0]
+    if not (isinstance(rows, VList) and rows.kind == ('list', 'ref')): raise Undecided('chain.from_iterable of %r' % (rows,))
+    return flat_list(ex, rows, p)
+
+
+def spec_flat(ex, e, p):
+    rows = ex.ev(e.args[0], p)
+    return VList(FLEN(rows.term()), FARR(rows.term()), 'ref')
+
+
+def spec_ref(ex, e, p): return VRef(ex.ev(e.args[0], p).t)
+
+
 def install(ex):
+    ex.ext_models['chain.from_iterable'] = chain_from_iterable
+    ex.module_names.add('chain')
+    ex.spec_ext['flat'] = spec_flat; ex.spec_ext['ref'] = spec_ref
     ex.ext_models['LpVariable'] = lp_variable
     ex.ext_models['lpSum'] = lp_sum
     ex.ext_models['LpAffineExpression'] = lp_affine
@@ -156,4 +269,13 @@ def install(ex):
     ex.globals['LpMaximize'] = VExt('LpMaximize'); ex.globals['LpMinimize'] = VExt('LpMinimize')
     ex.lp_binop_impl = lp_binop; ex.lp_compare_impl = lp_compare; ex.lp_add_impl = lp_add
     ex.spec_ext['nu'] = spec_nu; ex.spec_ext['feas'] = spec_feas; ex.spec_ext['used'] = spec_used
-    ex.spec_ext['pairvar'] = spec_pairvar
+    ex.spec_ext['pairvar'] = spec_pairvar; ex.spec_ext['indexedvar'] = spec_indexedvar; ex.spec_ext['namedvar'] = spec_namedvar
+    ex.spec_ext['solved'] = spec_solved; ex.spec_ext['status'] = spec_status; ex.spec_ext['solves'] = spec_solves
+    ex.spec_ext['hist'] = spec_hist; ex.spec_ext['solution_ok'] = spec_solution_ok
+    ex.spec_ext['objective'] = lambda ex_, e, p: VInt(g(p, 'objective', z3.Int('OBJ0')))
+    ex.spec_ext['feas_at_solve'] = lambda ex_, e, p: VBool(p.ghost.get('feas_at_solve', z3.Bool('FAS0')))
+    ex.ext_models['LpProblem.solve'] = lp_solve; ex.ext_models['LpProblem.writeLP'] = lp_writelp
+    ex.ext_models['pulp.PULP_CBC_CMD'] = lambda ex, p, args, kwargs, e: VExt('cbc')
+    ex.globals['LpStatus'] = VExt('LpStatus')
+    ex.lp_var_value = lambda o, p, line: lp_var_value(ex, o, p, line)
+    ex.fresh_feas = fresh_feas; ex.lp_status_get = status_get
